@@ -30,6 +30,15 @@ type Tree struct {
 	Files    map[string]string `json:"files"` // relative path -> content (without go.mod)
 	Convs    []LConv           `json:"convs"`
 	Existing map[string]string `json:"existing,omitempty"` // output dir -> name of a package already living there
+	Patterns []string          `json:"patterns,omitempty"` // package patterns for the CLI (default ./...)
+}
+
+// CLIPatterns are the package patterns to run goverter with.
+func (t *Tree) CLIPatterns() []string {
+	if len(t.Patterns) > 0 {
+		return t.Patterns
+	}
+	return []string{"./..."}
 }
 
 // LayoutOpts steer the tree generator.
@@ -44,6 +53,10 @@ type LayoutOpts struct {
 	Vars        bool
 	SamePackage bool // may emit into the declaring package itself
 	FaultKinds  []string
+	// ExplicitPatterns: the run may name the input packages one by one instead of ./... ; only
+	// then may an output directory hold hand-written code that uses the generated code (such a
+	// package does not type-check while goverter runs, so it must not be selected itself)
+	ExplicitPatterns bool
 }
 
 type layoutGen struct {
@@ -121,9 +134,30 @@ func Layout(rt *rapid.T, o LayoutOpts) *Tree {
 		for _, c := range g.t.Convs {
 			inputDirs[c.Dir] = true
 		}
+		explicit := o.ExplicitPatterns && g.coin("explicit-patterns")
+		if explicit {
+			for d := range inputDirs {
+				g.t.Patterns = append(g.t.Patterns, "./"+d)
+			}
+			sort.Strings(g.t.Patterns)
+		}
 		for _, c := range g.t.Convs {
 			d := c.OutDirRel(o.AbsRoot)
 			if inputDirs[d] || g.t.Files[d+"/existing.go"] != "" || g.t.Files[d+"/excluded.go"] != "" {
+				continue
+			}
+			if explicit && c.Name != "" && g.coin("existing-uses-generated") {
+				// hand-written code next to the output that uses what goverter generates there
+				ref := "&" + c.Name + "Impl{}"
+				switch {
+				case c.Format == "function":
+					ref = "Convert" + strings.TrimPrefix(c.Name, "Conv")
+				case c.Struct != "":
+					ref = "&" + c.Struct + "{}"
+				}
+				name := fmt.Sprintf("oldname%d", g.draw(3, "oldname"))
+				g.t.Files[d+"/existing.go"] = "package " + name + "\n\nvar Existing = " + ref + "\n"
+				g.t.Existing[d] = name
 				continue
 			}
 			switch g.draw(4, "existing-pkg") {
